@@ -341,8 +341,11 @@ namespace details {
 		virtual std::streamsize xsputn(const char* s, std::streamsize n)
 		{
 			if((epptr() - pptr()) >= n) {
-				memcpy(pptr(),s,n);
-				pbump(n);
+				// pptr() is NULL for an unbuffered device, memcpy must not be given it even for n == 0
+				if(n > 0) {
+					memcpy(pptr(),s,n);
+					pbump(n);
+				}
 			}
 			else {
 				booster::aio::const_buffer out=booster::aio::buffer(pbase(),pptr()-pbase());
@@ -480,8 +483,10 @@ namespace details {
 					setp(&output_[0],&output_[0]+resize_size);
 					pbump(current_size);
 				}
-				memcpy(pptr(),s,n);
-				pbump(n);
+				if(n > 0) {
+					memcpy(pptr(),s,n);
+					pbump(n);
+				}
 				return n;
 			}
 			else {
